@@ -60,8 +60,16 @@ def main():
             idx_cache[k] = (off + ii * s0 + jj * s1).ravel()
         return idx_cache[k]
 
-    def view2(vals, lay, r, f, dt, fill):
-        """the r x f view described by lay = (len, off, s0, s1) over a fresh flat buffer"""
+    def view2(vals, lay, r, f, dt, fill, packed=False):
+        """the r x f view described by lay = (len, off, s0, s1) over a fresh flat buffer; packed: the same elements as
+        the field of a packed record array (a one-byte tag in front of every row), so that the row stride in BYTES is
+        f * itemsize + 1 -- not a multiple of the item size, as in a memory-mapped frame file with a record header"""
+        if packed and r * f:
+            rec = np.zeros(r, dtype=np.dtype([("tag", "i1"), ("feat", dt, (f,))]))
+            rec["tag"] = 77
+            X = rec["feat"]
+            X[...] = np.asarray(vals, dtype=dt).reshape(r, f)
+            return rec, X
         ln, off, s0, s1 = lay
         buf = np.full(ln, fill, dtype=dt)
         if r * f:
@@ -112,7 +120,8 @@ def main():
         def placed(vals, dtp):
             a = scaled(vals, U, dtp)
             return a if aff is None else (aff[0] + a.astype(np.float64) * aff[1]).astype(dtp)
-        xbuf, X = view2(placed(flatX, dt) if flatX else None, lay["xl"], r, f, dt, fill)
+        xbuf, X = view2(placed(flatX, dt) if flatX else None, lay["xl"], r, f, dt, fill,
+                        packed=(not simple and cfg["layout"] == "packed"))
         yvals = list(case["y"])
         if cfg["dw"] == "wider":
             yvals = yvals + [0]
